@@ -286,6 +286,33 @@ func (e *Engine) registerFSIntrinsics() {
 	in["os.IsExist"] = func(r *Run, fr *frame, a []Value) Value {
 		return r.equal(nil, a[0], exist(r))
 	}
+	in["os.Mkdir"] = func(r *Run, fr *frame, a []Value) Value {
+		switch r.concreteInt(callH(r, fr, "vfsMkdir", a[0]), "vfsMkdir") {
+		case 0:
+			return Iface{}
+		case 1:
+			return exist(r)
+		}
+		return refused(r)
+	}
+	in["os.WriteFile"] = func(r *Run, fr *frame, a []Value) Value {
+		if callH(r, fr, "vfsCreate", a[0]).(BoolV).C {
+			return Iface{}
+		}
+		return refused(r)
+	}
+	in["os.Remove"] = func(r *Run, fr *frame, a []Value) Value {
+		if callH(r, fr, "vfsRemove", a[0], BoolV{C: false}).(BoolV).C {
+			return Iface{}
+		}
+		return refused(r)
+	}
+	in["os.RemoveAll"] = func(r *Run, fr *frame, a []Value) Value {
+		if callH(r, fr, "vfsRemove", a[0], BoolV{C: true}).(BoolV).C {
+			return Iface{}
+		}
+		return refused(r)
+	}
 }
 
 type fileInfoObj struct{ dir bool }
@@ -488,7 +515,17 @@ func (e *Engine) registerFmtIntrinsics() {
 			if m == nil || m.Signature.Results().Len() != 1 {
 				return BoolV{C: false}
 			}
-			nx, ok := r.callFunc(fr, m, []Value{cur.V}, nil).(Iface)
+			res := r.callFunc(fr, m, []Value{cur.V}, nil)
+			if list, isList := res.(SliceV); isList {
+				// Unwrap() []error (errors.Join, fmt.Errorf with several %w): depth-first over the list
+				for _, e := range list.Data {
+					if in["errors.Is"](r, fr, []Value{e, a[1]}).(BoolV).C {
+						return BoolV{C: true}
+					}
+				}
+				return BoolV{C: false}
+			}
+			nx, ok := res.(Iface)
 			if !ok {
 				return BoolV{C: false}
 			}
